@@ -79,12 +79,6 @@ theorem wellformed_decodes (p : Params) {b d : List UInt8} (h : WellFormed p b d
     Decodes p b d :=
   wf_decodes h
 
-/-- The decoder's answer re-encodes to its input iff the input was canonical. -/
-theorem decode_canonical_iff (p : Params) (hp : p.Valid) {b d : List UInt8}
-    (h : decode p b = some d) : encode p d = b ↔ WellFormed p b d :=
-  have _ := h
-  encode_eq_iff_wf hp
-
 /-- The fuel of `Spec.decode` / `Spec.encode` is not a bound: any larger fuel gives
 the same result (so the `none` of `decode` is a rejection, never exhaustion). -/
 theorem fuel_irrelevant (p : Params) (hp : p.Valid) (x : List UInt8) (extra : Nat) :
